@@ -72,6 +72,16 @@ structure TranslateScale (K : Type) where
   scale : K
 deriving Repr, BEq, DecidableEq
 
+/-- `offset::CubicOffset` -/
+structure CubicOffset (K : Type) where
+  c : CubicBez K
+  q : QuadBez K
+  d : K
+  c0 : K
+  c1 : K
+  c2 : K
+deriving Repr
+
 structure Nearest (K : Type) where
   distance_sq : K
   t : K
